@@ -113,3 +113,41 @@ Print Assumptions C16_write_gate_single.
 Print Assumptions C16_read_gate.
 Print Assumptions C16_fragmentation_independent.
 Print Assumptions C16_close_reason.
+
+(* ---- the read-side gate on the reader model of Model/Reader.v, instantiated with the UTF-8 validator proved above:
+   a single-frame text message (correct masking for the role, no reserved bits, within the read limit, idle reassembly
+   state) is delivered unchanged iff checking is off or its payload is well-formed UTF-8 (RFC 3629); otherwise nothing
+   is delivered and the connection is failed with status 1007.  Fragmented and compressed messages reach the same check
+   with the reassembled / inflated payload (C03_frame_refines: `complete`). *)
+From Gws Require Import Spec.Rfc6455 Spec.Rfc6455Recv Model.Header Model.CloseCode Model.Reader Proofs.FrameProofs Proofs.ReaderProofs Proofs.ReaderRefine.
+
+Theorem C16_reader_text_gate :
+  forall (inflate : list N -> list N -> Z -> option (list N)) (W : Type) (wdict : W -> list N) (wwrite : W -> list N -> W)
+         c st lf f rest,
+  frame_wf f -> lenform_ok lf (N.of_nat (length (f_payload f))) -> (N.of_nat (length (f_payload f)) < 2 ^ 63)%N ->
+  limit_ok c -> cf_init W st = false ->
+  f_op f = 1%N -> f_fin f = true -> f_rsv1 f = false -> f_rsv2 f = false -> f_rsv3 f = false ->
+  f_masked f = r_server c -> (Z.of_nat (length (f_payload f)) <= r_limit c)%Z ->
+  if r_utf8 c && negb (utf8_valid (f_payload f))
+  then read_message utf8_valid inflate W wdict wwrite c st (encode_frame lf f ++ rest) = SStop W [] (OFail W 1007%N)
+  else exists st', read_message utf8_valid inflate W wdict wwrite c st (encode_frame lf f ++ rest)
+                   = SCont W [EvMsg 1%N (f_payload f)] st' rest.
+Proof.
+  intros inflate W wdict wwrite c st lf f rest Hwf Hlf Hn Hc Hinit Hop Hfin H1 H2 H3 Hm Hsz.
+  destruct (r_utf8 c && negb (utf8_valid (f_payload f))) eqn:E.
+  - assert (Hst : st_ok W st) by (unfold st_ok; rewrite Hinit; discriminate).
+    pose proof (read_message_refines utf8_valid inflate W wdict wwrite c st lf f rest Hwf Hlf Hn Hc Hst) as R.
+    assert (Hcur : s_cur W (abs W st) = None) by (unfold abs; cbn; rewrite Hinit; reflexivity).
+    assert (Hnil : violations W (scfg_of c) (abs W st) f (minimal_of lf (N.of_nat (length (f_payload f)))) = []).
+    { unfold violations. rewrite Hcur, H1, H2, H3, Hm, Hop. cbn [scfg_of s_server s_pmd s_limit].
+      rewrite Bool.eqb_reflx. cbn.
+      replace (r_limit c <? Z.of_nat (length (f_payload f)))%Z with false by lia. reflexivity. }
+    unfold Rfc6455Recv.recv_frame in R. rewrite Hnil, Hop in R. cbn in R. rewrite Hfin, H1 in R.
+    unfold complete in R. cbn [scfg_of s_utf8] in R.
+    apply andb_true_iff in E as [E1 E2]. rewrite E1, E2 in R. cbn in R.
+    destruct R as (x & -> & [<-|[]]). reflexivity.
+  - pose proof (within_limit_delivered utf8_valid inflate W wdict wwrite c st lf f rest) as D. rewrite Hop in D. apply D; auto.
+    cbn. destruct (r_utf8 c); cbn in *; [exact E|reflexivity].
+Qed.
+
+Print Assumptions C16_reader_text_gate.
